@@ -653,13 +653,17 @@ def wrapper_tag_cases(rng, n, prefix="wt"):
         o2, c2 = kinds[k2]
         lines = [rng.choice(["", "a", "fn main() {"])]
         lines.append(ind + tag(rng.choice([f"tl {e} unwrap-block", 'rm name="x" unwrap-block'])))
-        shape = rng.randrange(6)
+        shape = rng.randrange(8)
         u_close = None
         # opening wrapper line
         if shape in (0, 1, 4):
             lines.append(ind + "if (c) { " + tag(o1))
             lines.append(ind + "  legacy();")
             lines.append(ind + "  " + tag(c1))
+        elif shape in (6, 7):
+            # a whole element on the opening wrapper line, ending exactly at the end of the line
+            lines.append(ind + "if (c) { " + tag(o1) + "x" + tag(c1) + ("" if shape == 6 else " "))
+            lines.append(ind + "  legacy();")
         elif shape == 2:
             lines.append(ind + tag(o1) + " if (c) {")
             lines.append(ind + "  legacy();")
@@ -913,7 +917,10 @@ def gen_c05(rng, tier):
     # every whitespace character chrono's scanner skips (White_Space: TAB LF VT FF CR, U+0085, U+00A0, U+1680,
     # U+2000..U+200A, U+2028, U+2029, U+202F, U+205F, U+3000) at the places where it is skipped
     for wsc in ["\t", "\n", "\x0b", "\x0c", "\r", "\u0085", "\u00a0", "\u1680", "\u2000", "\u2005", "\u200a", "\u200b", "\u2028",
-                "\u2029", "\u202f", "\u205f", "\u3000", "\u2060", "\ufeff", "\x1f", "\x08", "\x0e"]:
+                "\u2029", "\u202f", "\u205f", "\u3000", "\u2060", "\ufeff", "\x1f", "\x08", "\x0e",
+                # neighbours of the whitespace code points (not whitespace)
+                "\u0080", "\u0084", "\u0086", "\u009f", "\u00a1", "\u167f", "\u1681", "\u1fff", "\u2027", "\u202a", "\u202e",
+                "\u2030", "\u205e", "\u2fff", "\u3001"]:
         lenient.extend([wsc + "2000-01-01 00:00:00", "2000-01-01" + wsc + "00:00:00", "2000-01-01 00:00:00" + wsc,
                         "2000-01-01 " + wsc + "00:00:00"])
     # calendar: the last days of every month in years of every leap class; signs and letters in fields
